@@ -5,7 +5,7 @@
  * performed (hang: sleep forever; spin: busy loop; alloc: allocate until
  * failure, then exit 3; signal: kill itself with SIGSEGV; grand: fork a
  * grandchild that keeps stdout/stderr open and sleeps, then exit like
- * "accept").  Otherwise: all keep-tokens present -> "bug" (exit 1), else
+ * "accept"; slow: answer like "accept" after 0.65 s).  Otherwise: all keep-tokens present -> "bug" (exit 1), else
  * "ok" (exit 0).  One line is appended to LOGFILE per invocation.
  * "sleepif=TOKEN:MS" delays the answer by MS milliseconds when TOKEN is
  * PRESENT in the file (a slow golden run without slow candidates).
@@ -82,6 +82,11 @@ int main(int argc, char **argv) {
       return 4;
     }
     if (strcmp(fault, "signal") == 0) { raise(SIGSEGV); return 70; }
+    if (strcmp(fault, "slow") == 0) {
+      /* overruns a sub-second limit, but by less than a second */
+      usleep(650 * 1000);
+      /* fall through: behave like the predicate says */
+    }
     if (strcmp(fault, "grand") == 0) {
       if (fork() == 0) { prctl(PR_SET_NAME, "grandkid"); sleep(30); _exit(0); }
       /* fall through: behave like the predicate says */
